@@ -74,7 +74,7 @@ func shortType(t types.Type) string {
 		t = p.Elem()
 	}
 	if n, ok := t.(*types.Named); ok {
-		return n.Obj().Name()
+		return CanonName(n.Obj())
 	}
 	s := t.String()
 	if s == "interface{}" || s == "any" {
@@ -84,7 +84,7 @@ func shortType(t types.Type) string {
 }
 
 func calleeName(f *ssa.Function) string {
-	name := f.Name()
+	name := N(f)
 	if recv := f.Signature.Recv(); recv != nil {
 		name = TypeName(recv.Type()) + "." + name
 	}
@@ -173,7 +173,7 @@ func classify(v ssa.Value, set map[string]bool, seen map[ssa.Value]bool, depth i
 	case *ssa.Alloc:
 		set["alloc:"+shortType(x.Type())] = true
 	case *ssa.Global:
-		set["global:"+x.Name()] = true
+		set["global:"+N(x)] = true
 	case *ssa.Lookup:
 		sub := map[string]bool{}
 		classify(x.X, sub, seen, depth+1)
@@ -188,7 +188,7 @@ func classify(v ssa.Value, set map[string]bool, seen map[ssa.Value]bool, depth i
 		}
 	case *ssa.Field:
 		if f := FieldOf(x); f != nil {
-			set["field:"+shortType(x.X.Type())+"."+f.Name()] = true
+			set["field:"+shortType(x.X.Type())+"."+N(f)] = true
 		}
 	case *ssa.BinOp:
 		set["binop"] = true
@@ -204,7 +204,7 @@ func classify(v ssa.Value, set map[string]bool, seen map[ssa.Value]bool, depth i
 		switch a := x.X.(type) {
 		case *ssa.FieldAddr:
 			if f := FieldOf(a); f != nil {
-				set["field:"+shortType(a.X.Type())+"."+f.Name()] = true
+				set["field:"+shortType(a.X.Type())+"."+N(f)] = true
 			}
 		case *ssa.IndexAddr:
 			sub := map[string]bool{}
@@ -224,7 +224,7 @@ func classify(v ssa.Value, set map[string]bool, seen map[ssa.Value]bool, depth i
 		case *ssa.FreeVar:
 			resolveFreeVar(a, set, seen, depth)
 		case *ssa.Global:
-			set["global:"+a.Name()] = true
+			set["global:"+N(a)] = true
 		default:
 			sub := map[string]bool{}
 			classify(a, sub, seen, depth+1)
@@ -303,10 +303,10 @@ func callClass(c *ssa.Call) string {
 		return "call:" + calleeName(f)
 	}
 	if b, ok := c.Call.Value.(*ssa.Builtin); ok {
-		return "builtin:" + b.Name()
+		return "builtin:" + N(b)
 	}
 	if c.Call.IsInvoke() {
-		return "dyn:" + shortType(c.Call.Value.Type()) + "." + c.Call.Method.Name()
+		return "dyn:" + shortType(c.Call.Value.Type()) + "." + N(c.Call.Method)
 	}
 	return "dyn:" + shortType(c.Call.Value.Type())
 }
@@ -375,7 +375,7 @@ func LiteralStores(fn *ssa.Function, typeName string) map[*ssa.Alloc]map[string]
 		if out[al] == nil {
 			out[al] = map[string][]ssa.Value{}
 		}
-		out[al][f.Name()] = append(out[al][f.Name()], st.Val)
+		out[al][N(f)] = append(out[al][N(f)], st.Val)
 	})
 	return out
 }
